@@ -30,11 +30,14 @@ LEVEL_TEXT = ("Machine-checked proof (Coq) that applying any valid set of overri
               "The models are run against the real readers and the real override code on every overridable parameter "
               "of the chosen shipped files each run (bit-exact), and the property is evaluated on the real binary by "
               "paired whole runs compared as bytes.")
-LEVEL_NOTE = ("partial at the text level: for the classic fixed-column file the theorem assumes that the edited file "
-              "parses to the edited record (proved for the column-65 fields: C18_edit_at65_reads_back_partial; checked "
-              "for every parameter incl. the 5-column organ fields by the correspondence: edit_lines = python edit, "
-              "state_of_classic(edited) = real reader). Trusted: Coq kernel/vm_compute, YAML codecs, harness/driver. "
-              "Theorems are closed under the global context (no axioms).")
+LEVEL_NOTE = ("YAML crop file: complete (any set of overrides). Classic fixed-column file: proved end to end (text "
+              "written into the file by edit_lines, read back by the character-level reader) for one override entry of "
+              "every per-stage parameter and of the base parameters MAXAMAX, MINTMP, WUMAXPF, VELOC, INITCONCNBIOM, "
+              "INITCONCNROOT; partial for the yield fraction (column 66) and the per-organ PRO/DEAD values (5-column "
+              "fields): there the theorem C18_override_commutes_classic assumes that the edited file parses to the "
+              "edited record, which the correspondence checks for every parameter x stage x organ (edit_lines = the "
+              "edit made on disk; model reader = real reader on the edited file). Trusted: Coq kernel/vm_compute, "
+              "YAML codecs, harness/driver. All theorems are closed under the global context (no axioms).")
 TECHNIQUE = "Coq proof (pointwise array semantics, list extensionality) + bit-exact loaded-state correspondence + paired whole runs"
 
 _cache = {}
